@@ -94,6 +94,16 @@ CHECKS = {
                       "batches go through both MemoryRecords implementations"),
                 note="trusted base: vf/refrecords.py (independent v0/v1/v2 codec, crc32c table, varints); byte identity between "
                      "the two implementations is not demanded (compression policies differ)"),
+    "C13": dict(ready=True, engine="simcluster", level="exploration", design_ref="DESIGN.md §6 C13",
+                technique="runtime monitoring: start-position oracle over the settled position(), the first record handed out and "
+                          "the errors surfaced by getmany(), against the committed offset stored in the simulated coordinator and "
+                          "the log bounds the simulated brokers replied; seek() injected at chosen loop events",
+                text=("one real consumer (group member / group-less) x committed {absent, inside, at start, at end, 0, below log "
+                      "start, beyond log end} x policy {earliest, latest, none} x isolation level (open transactions: LSO < HW) x "
+                      "ListOffsets v0..v3 / OffsetFetch v1..v3 / Fetch v1..v11 x lookup faults (retriable codes incl. v2+ top-level "
+                      "OffsetFetch errors, drops, resets, lost replies, delays) x a user seek() landing k events after the "
+                      "assignment; 960 histories quick, ~19k thorough"),
+                note=SIM_NOTE + "; logs static until positions settle; settle bound 8 x request_timeout + 60 x backoff"),
     "C14": dict(ready=True, engine="direct", level="exploration", design_ref="DESIGN.md §6 C14",
                 technique="runtime contracts (icontract ensure) on the three real assign() functions evaluating the statement's "
                           "validity/balance predicates; termination monitor hooked on the sticky executor's move function",
